@@ -81,12 +81,39 @@ def r1_filter_feeds_rank(ctx):
     ts = [c for c in ast.walk(f.node) if isinstance(c, ast.Call) and call_name(c) == "TopologicalSorter"]
     arg = ts[0].args[0] if ts and ts[0].args else None
     graph_ok = False
+
+    def built_from(v, name, at_stmt, depth=0):
+        """Is the graph expression v keyed by the elements of `name` (directly, or through a helper given `name`)?"""
+        if isinstance(v, ast.DictComp):
+            return dotted(v.generators[0].iter) == name
+        if isinstance(v, ast.Call) and call_name(v) in ("dict", "dict.fromkeys") and v.args:
+            return any(isinstance(x, ast.Name) and x.id == name for x in ast.walk(v.args[0]))
+        if isinstance(v, ast.Call) and isinstance(v.func, ast.Name) and depth < 2:
+            r = repo.resolve_name(f.module, v.func.id)
+            if r and r[0] == "func":
+                h = r[1]
+                for i, a in enumerate(v.args):
+                    if dotted(a) == name and i < len(h.params):
+                        hp = h.params[i]
+                        rets = [x.value for x in ast.walk(h.node) if isinstance(x, ast.Return) and x.value is not None]
+                        for rv_ in rets:
+                            if isinstance(rv_, ast.Name):
+                                for s2 in ast.walk(h.node):
+                                    if isinstance(s2, ast.Assign) and any(dotted(t) == rv_.id for t in s2.targets) and built_from(s2.value, hp, s2, depth + 1):
+                                        ctx.touch(h)
+                                        return True
+                            elif built_from(rv_, hp, None, depth + 1):
+                                ctx.touch(h)
+                                return True
+        return False
+
     if isinstance(arg, ast.Name):
         for s in all_stmts(f.node):
             if isinstance(s, ast.Assign) and any(isinstance(t, ast.Name) and t.id == arg.id for t in s.targets):
-                v = s.value
-                if isinstance(v, ast.DictComp) and dotted(v.generators[0].iter) == tgt and cfg.dominated_by(cfg.node_of(s), [fnode]):
+                if built_from(s.value, tgt, s) and cfg.dominated_by(cfg.node_of(s), [fnode]):
                     graph_ok = True
+    elif arg is not None:
+        graph_ok = built_from(arg, tgt, None)
     ctx.ob(
         f"{f.key}:graph-from-filtered",
         f.loc(ts[0]),
